@@ -18,6 +18,7 @@ Stdlib only.  Nothing here decides a verdict; the checks do.
 """
 import errno
 import os
+import resource
 import signal
 import socket
 import struct
@@ -711,7 +712,10 @@ class Daemon:
     Started in its own session / process group; stop() kills the group and whatever pid the pid file names
     (if that process is a nano_vmd), so no daemon survives the check whatever happened in between."""
 
-    def __init__(self, binary, vmd_dir, env=None, log=None, args=("--foreground", "--no-timeout")):
+    def __init__(self, binary, vmd_dir, env=None, log=None, args=("--foreground", "--no-timeout"), prefix=(), nofile=None):
+        """prefix: command wrapper (e.g. strace ... --); nofile: RLIMIT_NOFILE (soft = hard) for the daemon process."""
+        self.prefix = list(prefix)
+        self.nofile = nofile
         self.binary = binary
         self.vmd_dir = vmd_dir
         self.extra_env = dict(env or {})
@@ -740,8 +744,14 @@ class Daemon:
         lf = open(self.log, "ab")
         self.log_start = lf.tell()                 # this instance's part of the (appended) stderr file starts here
         try:
-            self.proc = subprocess.Popen([self.binary] + self.args, env=self.env(), stdin=subprocess.DEVNULL,
-                                         stdout=lf, stderr=lf, start_new_session=True, cwd=self.vmd_dir)
+            pre = None
+            if self.nofile:
+                n = int(self.nofile)
+
+                def pre():
+                    resource.setrlimit(resource.RLIMIT_NOFILE, (n, n))
+            self.proc = subprocess.Popen(self.prefix + [self.binary] + self.args, env=self.env(), stdin=subprocess.DEVNULL,
+                                         stdout=lf, stderr=lf, start_new_session=True, cwd=self.vmd_dir, preexec_fn=pre)
         finally:
             lf.close()
         self.pids.add(self.proc.pid)
@@ -769,6 +779,14 @@ class Daemon:
     @property
     def pid(self):
         return self.proc.pid if self.proc else None
+
+    def daemon_pid(self):
+        """pid written by the daemon itself (differs from .pid when a wrapper such as strace was used)."""
+        try:
+            with open(pid_path(self.vmd_dir)) as f:
+                return int(f.read().strip() or 0)
+        except (OSError, ValueError):
+            return 0
 
     def alive(self):
         return self.proc is not None and self.proc.poll() is None and pid_alive(self.proc.pid)
